@@ -162,9 +162,9 @@ class Visibility(Enum):
             >>> Visibility.from_value("most")
             Visibility.MOST
         """
-        for k, v in cls.__members__.items():
+        for _, v in cls.__members__.items():
             if v == name:
-                return k
+                return v
         return cls.from_alias(name)
 
 
